@@ -1,5 +1,141 @@
-(** C11 — applying a served MPD patch to the old MPD yields the new MPD. (statements only) *)
-From Verif Require Import GoSem Patch.
+(** C11 — applying a served MPD patch to the old MPD yields the new MPD.
+    Only statements; every proof is [exact <lemma>] (lemmas in theories/PatchProofs*.v).
+    Model: theories/Patch.v (transliteration of pkg/patch and of the handler's status logic, plus an
+    independent XML-patch applier [apply_ops]).  A document is written [plug ctx e]: the element [e]
+    at the place described by the frames [ctx]; [located P ctx (sig_of e)] says that the selector [P]
+    leads there. *)
+From Verif Require Import GoSem Patch PatchProofs PatchProofsCheck PatchExamples.
+From Coq Require Import Permutation.
 
-Example C11_example_placeholder : myers Z.eqb [1;2;3] [1;3;4] = Ok [mkMop KDel 1 (-1); mkMop KIns 3 2].
-Proof. vm_compute. reflexivity. Qed.
+(** addLeafListChanges: for ANY edit script that is valid for (old,new) under equalLeafs, the
+    remove/add operations with their S[k] positions, applied in order, turn the children of a
+    SegmentTimeline into the new list - every mix of removals and insertions, anywhere in a document. *)
+Theorem C11_leaflist : forall T oldE newE P s ctx e,
+  Forall (leafT T) oldE -> Forall (leafT T) newE -> Forall plain_leaf oldE -> Forall plain_leaf newE ->
+  valid_script equalLeafs s oldE newE = true ->
+  e_children e = oldE -> located P ctx (sig_of e) ->
+  exists ops, leaflist_ops P oldE newE s 0 0 = Ok ops
+    /\ apply_ops ops (plug ctx e) = Some (plug ctx (set_children e newE)).
+Proof. exact leaflist_script_exact. Qed.
+Print Assumptions C11_leaflist.
+
+(** compareAttributes/addAttrChanges: the replace, add and remove operations on attributes turn
+    the attribute list into a permutation of the new one (order is not observable in XML). *)
+Theorem C11_attrs : forall P ctx e n,
+  Forall addr_step P -> located P ctx (sig_of e) -> attrs_ok (e_attrs e) n ->
+  aval "id" (e_attrs e) = aval "id" n -> aval "schemeIdUri" (e_attrs e) = aval "schemeIdUri" n ->
+  exists r, apply_ops (attr_ops P (e_attrs e) n) (plug ctx e) = Some (plug ctx (set_attrs e r)) /\ Permutation r n.
+Proof. exact attr_ops_apply. Qed.
+Print Assumptions C11_attrs.
+
+(** addElemChanges, for every differ, every depth and any place in a document: under the premise
+    [tree_ok] (attribute keys unique; list scripts valid; every address computed by calcAddr with
+    the walk's lastNewIdx/oldIdx index resolves, in the document as it is at that moment, to the
+    intended node) the emitted operations turn [old] into a document equivalent to [new]. *)
+Theorem C11_tree : forall diff fuel old new P ctx,
+  tree_ok diff fuel old new -> Forall addr_step P -> located P ctx (sig_of old) ->
+  exists ops new', elem_ops_with diff fuel old new P = Ok ops /\
+                   apply_ops ops (plug ctx old) = Some (plug ctx new') /\ sim new' new.
+Proof. exact tree_sound. Qed.
+Print Assumptions C11_tree.
+
+(** MPDDiff as in the code (MyersDiff as differ): whenever the premise holds for the pair - in
+    particular the scripts MyersDiff returned are valid - the patch applied to the old document
+    gives the new document (attribute order aside). *)
+Theorem C11_checked : forall old new pd,
+  mpdDiff old new = Ok pd ->
+  tree_ok (@myers elem) (S (depth old)) old new ->
+  exists new', apply_ops (p_ops pd) old = Some new' /\ equiv new' new.
+Proof. exact mpdDiff_sound. Qed.
+Print Assumptions C11_checked.
+
+(** The handler (old = MPD regenerated for publishTime + 1 ms, new = MPD of now), when the
+    regenerated document is the document served at t1: 425 exactly for equal publishTime, 410 exactly
+    beyond publishTime + ttl + 10 s, and a served patch carries the publishTime of the MPD of t1 as
+    originalPublishTime. *)
+Theorem C11_handler : forall (mpd_at : Z -> elem) (t1 pt1_ms t2 : Z) ptO ptN o n ttlS ttl pl,
+  mpd_at (pt1_ms + 1) = mpd_at t1 ->
+  e_tag (mpd_at t1) = "MPD" -> e_tag (mpd_at t2) = "MPD" ->
+  getAttrValue (mpd_at t1) "publishTime" = ptO -> getAttrValue (mpd_at t2) "publishTime" = ptN ->
+  ptO <> "" -> ptN <> "" ->
+  select_element "PatchLocation" (e_children (mpd_at t1)) = Some pl ->
+  option_map a_val (select_attr "ttl" (e_attrs pl)) = Some ttlS -> atoi ttlS = Some ttl ->
+  parse_rfc3339 ptO = Some o -> parse_rfc3339 ptN = Some n -> 0 <= ttl < 2147483648 ->
+  let st := patch_handler_status mpd_at pt1_ms t2 in
+  (st = 425 <-> ptN = ptO) /\
+  (ptN <> ptO -> (st = 410 <-> o + ttl * 1000000000 + 10000000000 < n)) /\
+  (st = 200 -> exists pd, patch_handler mpd_at pt1_ms t2 = Ok pd /\ p_orig pd = ptO /\ p_new pd = ptN /\
+                          n <= o + ttl * 1000000000 + 10000000000).
+Proof. exact handler_statuses. Qed.
+Print Assumptions C11_handler.
+
+(** The second sentence of the property is false for the code: two documents that carry all
+    mandatory ids, Period children [ProgramInformation; BaseURL a; BaseURL b; AdaptationSet] vs
+    [ProgramInformation; BaseURL a; AdaptationSet]; the removal is addressed BaseURL[3] and the
+    patch cannot be applied. *)
+Theorem C11_general_refuted :
+  ids_present w_old = true /\ ids_present w_new = true /\
+  exists pd, mpdDiff w_old w_new = Ok pd /\
+    In (ORemove [mkStep "MPD" PNone; mkStep "Period" (PAttr "id" "P0"); mkStep "BaseURL" (PIdx 3)]) (p_ops pd) /\
+    apply_ops (p_ops pd) w_old = None.
+Proof. exact general_refuted. Qed.
+Print Assumptions C11_general_refuted.
+
+(** MyersDiff panics (index out of range) for one old and eight new elements with nothing in common. *)
+Theorem C11_myers_panic_refuted :
+  myers Z.eqb [1000] [2000;2001;2002;2003;2004;2005;2006;2007] = Panic "patch.diffInternal:index".
+Proof. exact myers_panic_refuted. Qed.
+Print Assumptions C11_myers_panic_refuted.
+
+(** The model of MyersDiff returns a valid script for all pairs of lists of length <= 4 over three
+    letters, and of length <= 6 over two letters (exhaustive evaluation; the bounds are part of the
+    statement; length <= 5 over three letters: coq/thorough/C11Bounded.v, thorough tier). *)
+Theorem C11_myers_valid_bounded : forall e f : list Z,
+  ((length e <= 4)%nat /\ (length f <= 4)%nat /\ Forall (fun a => In a [0;1;2]) e /\ Forall (fun a => In a [0;1;2]) f) \/
+  ((length e <= 6)%nat /\ (length f <= 6)%nat /\ Forall (fun a => In a [0;1]) e /\ Forall (fun a => In a [0;1]) f) ->
+  exists s, myers Z.eqb e f = Ok s /\ valid_script Z.eqb s e f = true.
+Proof.
+  exact (fun e f H => match H with
+                      | or_introl (conj a (conj b (conj c d))) => myers_valid_bounded_3_4 e f a b c d
+                      | or_intror (conj a (conj b (conj c d))) => myers_valid_bounded_2_6 e f a b c d
+                      end).
+Qed.
+Print Assumptions C11_myers_valid_bounded.
+
+(** Non-vacuity: a SegmentTimeline below MPD/Period (with an id-less sibling before it); the first S
+    loses its t attribute, one S disappears and the last one gets a repeat count; the script of
+    MyersDiff is valid and the three operations give exactly the new list. *)
+Example C11_example :
+  let S t d r := Elem "S" ((if t =? 0 then [] else [mkAttr "" "t" "1"]) ++ [mkAttr "" "d" d] ++ (if r =? 0 then [] else [mkAttr "" "r" "3"])) "" [] in
+  let oldE := [S 1 "96256" 0; S 0 "95232" 3; S 0 "96256" 0; S 0 "95232" 3] in
+  let newE := [S 0 "96256" 0; S 0 "95232" 3; S 0 "96256" 3] in
+  let stl := Elem "SegmentTimeline" [] "" oldE in
+  let P := [mkStep "MPD" PNone; mkStep "Period" (PAttr "id" "P0"); mkStep "SegmentTimeline" PNone] in
+  let ctx := [mkFrame "MPD" [mkAttr "" "id" "m"] "" [] []; mkFrame "Period" [mkAttr "" "id" "P0"] "" [Elem "BaseURL" [] "x" []] []] in
+  exists s ops, myers equalLeafs oldE newE = Ok s /\ valid_script equalLeafs s oldE newE = true /\
+    located P ctx (sig_of stl) /\
+    leaflist_ops P oldE newE s 0 0 = Ok ops /\ lenZ ops = 3 /\
+    apply_ops ops (plug ctx stl) = Some (plug ctx (set_children stl newE)).
+Proof.
+  do 2 eexists. split; [vm_compute; reflexivity|]. split; [vm_compute; reflexivity|].
+  split; [vm_compute; auto|]. split; [vm_compute; reflexivity|]. split; vm_compute; reflexivity.
+Qed.
+
+(** The premise of C11_tree / C11_checked is decidable: [tree_okb] computes it (the correspondence
+    evaluates it on every generated pair of documents and on every served patch; where it holds the
+    patch of the implementation has to apply). *)
+Theorem C11_premise_checkable : forall diff fuel old new,
+  tree_okb diff fuel old new = true -> tree_ok diff fuel old new.
+Proof. exact tree_okb_spec. Qed.
+Print Assumptions C11_premise_checkable.
+
+(** Non-vacuity of C11_checked ([ex_old], [ex_new] in theories/PatchExamples.v): a document with
+    ProgramInformation, PatchLocation, a Period with an id-less BaseURL and two AdaptationSets; the new
+    one has another publishTime, a moved SegmentTimeline window, a changed and an added attribute and a
+    new Representation.  The premise holds (computed), the patch has six operations, it applies and
+    gives a document equivalent to the new one. *)
+Example C11_checked_example :
+  tree_okb (@myers elem) (S (depth ex_old)) ex_old ex_new = true /\
+  exists pd new', mpdDiff ex_old ex_new = Ok pd /\ lenZ (p_ops pd) = 6 /\
+                  apply_ops (p_ops pd) ex_old = Some new' /\ equiv new' ex_new.
+Proof. exact ex_checked. Qed.
